@@ -219,6 +219,8 @@ class HyperLogLog[T: Hashable](CardinalitySketch):
             raise ValueError(
                 f"Cannot merge: precision differs ({self._precision} vs {other._precision})"
             )
+        if other._seed != self._seed:
+            raise ValueError(f"Cannot merge: seeds differ ({self._seed} vs {other._seed})")
 
         # Take maximum of each register
         for i in range(self._num_registers):
